@@ -205,7 +205,7 @@ def show(t: T, depth: int = 6) -> str:
         return "(" + f" {a[0]} ".join(show(x, d) for x in a[1]) + ")"
     if k == "phi":
         return "φ(" + ", ".join(show(x, d) for x in a[0]) + ")"
-    if k in ("elem", "batched", "leaf", "star"):
+    if k in ("elem", "batched", "leaf", "star", "copy"):
         return f"{k}({show(a[0], d)})"
     if k == "loopin":
         return f"loopin({show(a[0], d)})"
@@ -217,3 +217,36 @@ def show(t: T, depth: int = 6) -> str:
     if k == "opaque":
         return f"<opaque {a[0]}>"
     return f"{k}{a}"
+
+
+_uncopy_memo: Dict[int, "T"] = {}
+
+
+def uncopy(t: T) -> T:
+    """The same term with every `copy` node removed (copies are value-preserving)."""
+    r = _uncopy_memo.get(t.id)
+    if r is not None:
+        return r
+
+    def conv(a):
+        if isinstance(a, T):
+            return uncopy(a)
+        if isinstance(a, tuple):
+            return tuple(conv(x) for x in a)
+        return a
+
+    if t.kind == "copy":
+        r = uncopy(t.args[0])
+    elif t.kind in ("fn", "opaque"):
+        r = t
+    else:
+        new_args = tuple(conv(a) for a in t.args)
+        r = t if all(x is y for x, y in zip(new_args, t.args)) and _same(new_args, t.args) else mk(t.kind, *new_args)
+    _uncopy_memo[t.id] = r
+    return r
+
+
+def _same(a, b) -> bool:
+    if isinstance(a, tuple) and isinstance(b, tuple):
+        return len(a) == len(b) and all(_same(x, y) for x, y in zip(a, b))
+    return a is b or (not isinstance(a, T) and a == b)
